@@ -41,7 +41,14 @@ def _cases(draw, nmax):
     k0 = draw(st.integers(-40, 40))
     step = draw(st.sampled_from([0.25, 0.5, 1.0, 2.0, 0.7, 3.1]))
     data = draw(st.lists(st.integers(-9, 9), min_size=2 * n, max_size=2 * n))
-    return _case(dom, atype, n, centred, k0, step, data)
+    c = _case(dom, atype, n, centred, k0, step, data)
+    # the energy units that are current while axes are converted and functions transformed; how the complex values get
+    # into the function (constructor / assigned to .data of a function built from real values / apply_to_data); whether
+    # the time axis has been used before (asked for its frequency axis, then shifted to zero)
+    c["units"] = draw(st.sampled_from([None, None, "1/cm", "eV", "THz"]))
+    c["route"] = draw(st.sampled_from(["ctor", "ctor", "assign", "apply"]))
+    c["reused"] = draw(st.sampled_from([False, False, True]))
+    return c
 
 
 def strategy(tier):
@@ -92,8 +99,32 @@ def check_case(case, ctx):
             ax = TimeAxis(start, n, step, atype=atype)
         else:
             ax = FrequencyAxis(start, n, step, atype=atype)
-    x = numpy.array(ax.data, dtype=float)
+    if case.get("reused") and dom == "time":
+        # an axis object with a history: it has handed out its frequency axis and was then shifted to zero
+        ok, _ = guarded(ctx, "axis-reuse", lambda: (ax.get_FrequencyAxis(), ax.shift_to_zero()), tag)
+        if not ok:
+            return
+        ctx.label("reused-axis")
 
+    def idata(a):
+        with energy_units("int"):
+            return numpy.array(a.data, dtype=float)
+    x = idata(ax)
+    import contextlib
+    units = case.get("units")
+    ctx.label("units=%s" % units, "route=%s" % case.get("route", "ctor"))
+    with (energy_units(units) if units else contextlib.nullcontext()):
+        _body(case, ctx, ax, x, y, tag, amp, idata)
+
+
+def _body(case, ctx, ax, x, y, tag, amp, idata):
+    from quantarhei import DFunction
+    from ..core import guarded
+    dom, atype, n, step, centred = case["dom"], case["atype"], case["N"], case["step"], case["centred"]
+    if case.get("reused") and dom == "time" and atype == "upper-half":
+        centred = centred or True       # after shift_to_zero an upper-half time axis starts at zero
+    elif case.get("reused") and dom == "time" and x[0] == 0.0 and atype == "complete":
+        centred = False                 # a shifted complete axis is not centred at zero any more
     # ---- axis round trip -------------------------------------------------
     if dom == "freq" and atype == "upper-half" and n % 2 == 1:
         try:
@@ -110,14 +141,22 @@ def check_case(case, ctx):
         if back.length != n or back.atype != atype:
             ctx.fail("axis-roundtrip", tag, length=back.length, atype=back.atype)
         else:
-            ctx.close("axis-roundtrip", numpy.array(back.data, dtype=float), x, rtol=1e-10, scale=span, where=tag)
+            ctx.close("axis-roundtrip", idata(back), x, rtol=1e-10, scale=span, where=tag)
 
     # ---- transform -------------------------------------------------------
-    f = DFunction(ax, y.copy())
+    route = case.get("route", "ctor")
+    if route == "assign":
+        f = DFunction(ax, numpy.array(y.real, dtype=float))
+        f.data = y.copy()
+    elif route == "apply":
+        f = DFunction(ax, numpy.array(y.real, dtype=float))
+        f.apply_to_data(lambda d: d + 1j * y.imag)
+    else:
+        f = DFunction(ax, y.copy())
     ok, F = guarded(ctx, "fourier-sum", lambda: f.get_Fourier_transform(), tag)
     if not ok:
         return
-    k = numpy.array(F.axis.data, dtype=float)
+    k = idata(F.axis)
     if centred:
         if dom == "time" and atype == "complete":
             ref = dsum(x, y, k, +1, step)
@@ -145,6 +184,6 @@ def check_case(case, ctx):
         return
     ctx.close("ft-roundtrip", g.data, y, rtol=1e-10 * n, scale=amp, where=tag, N=n)
     span = float(numpy.max(numpy.abs(x))) + step
-    ctx.close("ft-roundtrip-axis", numpy.array(g.axis.data, dtype=float), x, rtol=1e-10, scale=span, where=tag)
+    ctx.close("ft-roundtrip-axis", idata(g.axis), x, rtol=1e-10, scale=span, where=tag)
     if type(g.axis) is not type(ax) or g.axis.atype != atype:
         ctx.fail("ft-roundtrip-axis", tag, why="axis type", got=type(g.axis).__name__)
